@@ -89,7 +89,8 @@ number literal (all six operators, either side), `not()`, `and`, `or` — nested
 predicates inside predicates.  For every well-formed document and valid context node, the plan
 the builder makes (cachedChild, the `//name` shortcut, descendant-over-descendant, the merge
 rewrite all included) selects exactly the oracle's node set.  Hypotheses: navigator exposing
-namespace URIs, NoFnvCollision. -/
+namespace URIs,
+`HashInj` (node keys are injective: a theorem, `PathSem.hashInj_holds` — see the `_unconditional` corollary). -/
 theorem C02_main {d : Doc} (wf : WF d) (cfg : ECfg) (hns : cfg.nsIface = true)
     (hinj : HashInj d cfg) (regexOk : RegexOk) (limit : Nat) (p : Ast) (hp : Frag true p)
     (st : BState) (o : BOut) (hb : build regexOk limit true false p {} st = .ok o)
@@ -98,6 +99,18 @@ theorem C02_main {d : Doc} (wf : WF d) (cfg : ECfg) (hns : cfg.nsIface = true)
       Spec.eval (F := F) d p ⟨c, 1, 1⟩ = .ok (.val (.nodes ns) g) ∧
       ∀ x, x ∈ refs out ↔ x ∈ ns :=
   PredSem.C02_main wf cfg hns hinj regexOk limit p hp st o hb c hc
+
+open XPathV.PathSem XPathV.PredSem in
+/-- `C02_main` without the `HashInj` hypothesis (it is a theorem now: `hashInj_holds`; the side
+condition left is "no element has two attributes with the same prefix, name and value") -/
+theorem C02_main_unconditional {d : Doc} (wf : WF d) (cfg : ECfg) (hns : cfg.nsIface = true)
+    (hattr : AttrTriplesDistinct d) (regexOk : RegexOk) (limit : Nat) (p : Ast) (hp : Frag true p)
+    (st : BState) (o : BOut) (hb : build regexOk limit true false p {} st = .ok o)
+    (c : Ref) (hc : validRef d c = true) :
+    ∃ out ns g, sel (F := F) d cfg o.q c = .ok out ∧
+      Spec.eval (F := F) d p ⟨c, 1, 1⟩ = .ok (.val (.nodes ns) g) ∧
+      ∀ x, x ∈ refs out ↔ x ∈ ns :=
+  C02_main wf cfg hns (PathSem.hashInj_holds wf hattr cfg) regexOk limit p hp st o hb c hc
 
 open XPathV.PathSem XPathV.PredSem in
 /-- **C02, the property as stated**: the built plan of `p[b]` returns a candidate node of `p` if
@@ -121,6 +134,27 @@ theorem C02_keeps_exactly_the_true_ones {d : Doc} (wf : WF d) (cfg : ECfg) (hns 
   PredSem.C02_main_keeps_true wf cfg hns hinj regexOk limit p b hp hb st0 st o0 o hb0 hb1 c hc
 
 open XPathV.PathSem XPathV.PredSem in
+/-- `C02_keeps_exactly_the_true_ones` without the `HashInj` hypothesis (it is a theorem now: `hashInj_holds`; the side
+condition left is "no element has two attributes with the same prefix, name and value") -/
+theorem C02_keeps_exactly_the_true_ones_unconditional {d : Doc} (wf : WF d) (cfg : ECfg) (hns : cfg.nsIface = true)
+    (hattr : AttrTriplesDistinct d) (regexOk : RegexOk) (limit : Nat) (p b : Ast) (hp : Frag true p)
+    (hb : Frag false b) (st0 st : BState) (o0 o : BOut)
+    (hb0 : build regexOk limit true false p {} st0 = .ok o0)
+    (hb1 : build regexOk limit true false (.filter p b) {} st = .ok o)
+    (c : Ref) (hc : validRef d c = true) :
+    ∃ out0 ns0 g0 out ns g,
+      sel (F := F) d cfg o0.q c = .ok out0 ∧
+      Spec.eval (F := F) d p ⟨c, 1, 1⟩ = .ok (.val (.nodes ns0) g0) ∧
+      (∀ x, x ∈ refs out0 ↔ x ∈ ns0) ∧
+      sel (F := F) d cfg o.q c = .ok out ∧
+      Spec.eval (F := F) d (.filter p b) ⟨c, 1, 1⟩ = .ok (.val (.nodes ns) g) ∧
+      (∀ x, x ∈ refs out ↔ x ∈ ns) ∧
+      (∀ x, x ∈ refs out ↔ x ∈ refs out0 ∧ holds (F := F) d b x = true) ∧
+      (∀ x, x ∈ ns ↔ x ∈ ns0 ∧ holds (F := F) d b x = true) :=
+  C02_keeps_exactly_the_true_ones wf cfg hns (PathSem.hashInj_holds wf hattr cfg) regexOk limit p b
+    hp hb st0 st o0 o hb0 hb1 c hc
+
+open XPathV.PathSem XPathV.PredSem in
 /-- C02 at the builder configuration read off the current source (`shortcutCondSrc`,
 `filterInputFlagsSrc`), against the top-level oracle -/
 theorem C02_at_source_config {d : Doc} (wf : WF d) (cfg : ECfg) (hns : cfg.nsIface = true)
@@ -130,6 +164,17 @@ theorem C02_at_source_config {d : Doc} (wf : WF d) (cfg : ECfg) (hns : cfg.nsIfa
     ∃ out ns, sel (F := F) d cfg o.q c = .ok out ∧
       Spec.evalTop (F := F) d p c = .ok (.nodes ns) ∧ ∀ x, x ∈ refs out ↔ x ∈ ns :=
   PredSem.C02_source_config wf cfg hns hinj regexOk limit p hp o hb c hc
+
+open XPathV.PathSem XPathV.PredSem in
+/-- `C02_at_source_config` without the `HashInj` hypothesis (it is a theorem now: `hashInj_holds`; the side
+condition left is "no element has two attributes with the same prefix, name and value") -/
+theorem C02_at_source_config_unconditional {d : Doc} (wf : WF d) (cfg : ECfg) (hns : cfg.nsIface = true)
+    (hattr : AttrTriplesDistinct d) (regexOk : RegexOk) (limit : Nat) (p : Ast) (hp : Frag true p) (o : BOut)
+    (hb : build regexOk limit shortcutNeedsNodeTestFromSource smartDescThroughFilterFromSource p {} {} = .ok o)
+    (c : Ref) (hc : validRef d c = true) :
+    ∃ out ns, sel (F := F) d cfg o.q c = .ok out ∧
+      Spec.evalTop (F := F) d p c = .ok (.nodes ns) ∧ ∀ x, x ∈ refs out ↔ x ∈ ns :=
+  C02_at_source_config wf cfg hns (PathSem.hashInj_holds wf hattr cfg) regexOk limit p hp o hb c hc
 
 open XPathV.PathSem XPathV.PredSem in
 /-- one filter, sequence level: the filter keeps, in order, exactly the candidates whose
@@ -176,6 +221,18 @@ theorem C02_main_full {d : Doc} (wf : WF d) (cfg : ECfg) (hns : cfg.nsIface = tr
   C02_main2 wf cfg hns hinj regexOk limit p hp st o hb c hc
 
 open XPathV.PathSem XPathV.PredSem XPathV.PredSem2 in
+/-- `C02_main_full` without the `HashInj` hypothesis (it is a theorem now: `hashInj_holds`; the side
+condition left is "no element has two attributes with the same prefix, name and value") -/
+theorem C02_main_full_unconditional {d : Doc} (wf : WF d) (cfg : ECfg) (hns : cfg.nsIface = true)
+    (hattr : AttrTriplesDistinct d) (regexOk : RegexOk) (limit : Nat) (p : Ast) (hp : Frag2 true p)
+    (st : BState) (o : BOut) (hb : build regexOk limit true false p {} st = .ok o)
+    (c : Ref) (hc : validRef d c = true) :
+    ∃ out ns g, sel (F := F) d cfg o.q c = .ok out ∧
+      Spec.eval (F := F) d p ⟨c, 1, 1⟩ = .ok (.val (.nodes ns) g) ∧
+      ∀ x, x ∈ refs out ↔ x ∈ ns :=
+  C02_main_full wf cfg hns (PathSem.hashInj_holds wf hattr cfg) regexOk limit p hp st o hb c hc
+
+open XPathV.PathSem XPathV.PredSem XPathV.PredSem2 in
 /-- … the property as stated, on the full list: `p[b]` (and `(p)[b]`) keeps a candidate iff
 `boolean(b)` is true there -/
 theorem C02_keeps_exactly_the_true_ones_full {d : Doc} (wf : WF d) (cfg : ECfg) (hns : cfg.nsIface = true)
@@ -196,6 +253,27 @@ theorem C02_keeps_exactly_the_true_ones_full {d : Doc} (wf : WF d) (cfg : ECfg) 
   C02_keeps_true2 wf cfg hns hinj regexOk limit p b hp hb st0 st o0 o hb0 hb1 c hc
 
 open XPathV.PathSem XPathV.PredSem XPathV.PredSem2 in
+/-- `C02_keeps_exactly_the_true_ones_full` without the `HashInj` hypothesis (it is a theorem now: `hashInj_holds`; the side
+condition left is "no element has two attributes with the same prefix, name and value") -/
+theorem C02_keeps_exactly_the_true_ones_full_unconditional {d : Doc} (wf : WF d) (cfg : ECfg) (hns : cfg.nsIface = true)
+    (hattr : AttrTriplesDistinct d) (regexOk : RegexOk) (limit : Nat) (p b : Ast) (hp : Frag2 true p)
+    (hb : Frag2 false b) (st0 st : BState) (o0 o : BOut)
+    (hb0 : build regexOk limit true false p {} st0 = .ok o0)
+    (hb1 : build regexOk limit true false (.filter p b) {} st = .ok o)
+    (c : Ref) (hc : validRef d c = true) :
+    ∃ out0 ns0 g0 out ns g,
+      sel (F := F) d cfg o0.q c = .ok out0 ∧
+      Spec.eval (F := F) d p ⟨c, 1, 1⟩ = .ok (.val (.nodes ns0) g0) ∧
+      (∀ x, x ∈ refs out0 ↔ x ∈ ns0) ∧
+      sel (F := F) d cfg o.q c = .ok out ∧
+      Spec.eval (F := F) d (.filter p b) ⟨c, 1, 1⟩ = .ok (.val (.nodes ns) g) ∧
+      (∀ x, x ∈ refs out ↔ x ∈ ns) ∧
+      (∀ x, x ∈ refs out ↔ x ∈ refs out0 ∧ holds (F := F) d b x = true) ∧
+      (∀ x, x ∈ ns ↔ x ∈ ns0 ∧ holds (F := F) d b x = true) :=
+  C02_keeps_exactly_the_true_ones_full wf cfg hns (PathSem.hashInj_holds wf hattr cfg) regexOk limit
+    p b hp hb st0 st o0 o hb0 hb1 c hc
+
+open XPathV.PathSem XPathV.PredSem XPathV.PredSem2 in
 /-- the truth of a built predicate never depends on the context position/size and is never a
 number: every plan the builder makes of a predicate of the fragment evaluates, at every valid
 node, to a boolean or node-set whose truth is `boolean()` of the oracle's value -/
@@ -207,6 +285,19 @@ theorem C02_built_predicate_truth {d : Doc} (wf : WF d) (cfg : ECfg) (hns : cfg.
       Spec.eval (F := F) d b ⟨c, pos, size⟩ = .ok (.val sv g) ∧
       truthM v = Spec.toBool sv ∧ IsBN v ∧ NotNum sv :=
   built_pred_truth2 wf cfg hns hinj regexOk limit b hb fl st o hbuild c hc pos size
+
+open XPathV.PathSem XPathV.PredSem XPathV.PredSem2 in
+/-- `C02_built_predicate_truth` without the `HashInj` hypothesis (it is a theorem now: `hashInj_holds`; the side
+condition left is "no element has two attributes with the same prefix, name and value") -/
+theorem C02_built_predicate_truth_unconditional {d : Doc} (wf : WF d) (cfg : ECfg) (hns : cfg.nsIface = true)
+    (hattr : AttrTriplesDistinct d) (regexOk : RegexOk) (limit : Nat) (b : Ast) (hb : Frag2 false b)
+    (fl : Flags) (st : BState) (o : BOut) (hbuild : build regexOk limit true false b fl st = .ok o)
+    (c : Ref) (hc : validRef d c = true) (pos size : Nat) :
+    ∃ v sv g, evalP (F := F) d cfg o.q c = .ok v ∧
+      Spec.eval (F := F) d b ⟨c, pos, size⟩ = .ok (.val sv g) ∧
+      truthM v = Spec.toBool sv ∧ IsBN v ∧ NotNum sv :=
+  C02_built_predicate_truth wf cfg hns (PathSem.hashInj_holds wf hattr cfg) regexOk limit b hb fl st
+    o hbuild c hc pos size
 
 open XPathV.PathSem XPathV.PredSem XPathV.ApiSem in
 /-- **C02 at the public API, from the expression text**: on a text that parses into the
@@ -224,6 +315,24 @@ theorem C02_from_text (regexOk : RegexOk) (ns : Option (List (String × String))
           ∃ l nsl, selectAll (F := F) d cfg p c = .ok l ∧ evaluate (F := F) d cfg p c = .ok (.nodes l) ∧
             Spec.evalTop (F := F) d a c = .ok (.nodes nsl) ∧ ∀ x, x ∈ l ↔ x ∈ nsl) :=
   C02_compile_total regexOk ns text a hparse hfrag
+
+open XPathV.PathSem XPathV.PredSem XPathV.ApiSem in
+/-- `C02_from_text` without the `HashInj` hypothesis (it is a theorem now: `hashInj_holds`; the side
+condition left is "no element has two attributes with the same prefix, name and value") -/
+theorem C02_from_text_unconditional (regexOk : RegexOk) (ns : Option (List (String × String)))
+    (text : List Char) (a : Ast) (hparse : parse (fuelFor text) (defaultCfg ns) text = .ok a)
+    (hfrag : Frag true a) :
+    (∃ e, compile { regexOk := regexOk } ns text = .error (.build e)) ∨
+    (∃ p, compile { regexOk := regexOk } ns text = .ok p ∧ PathShape p ∧
+      ∀ (F : Type) [NumAlg F] (d : Doc), WF d → ∀ cfg : ECfg, cfg.nsIface = true →
+        AttrTriplesDistinct d →
+        ∀ c, validRef d c = true →
+          ∃ l nsl, selectAll (F := F) d cfg p c = .ok l ∧ evaluate (F := F) d cfg p c = .ok (.nodes l) ∧
+            Spec.evalTop (F := F) d a c = .ok (.nodes nsl) ∧ ∀ x, x ∈ l ↔ x ∈ nsl) := by
+  rcases C02_from_text regexOk ns text a hparse hfrag with h | ⟨p, h1, h2, h3⟩
+  · exact .inl h
+  · exact .inr ⟨p, h1, h2, fun F _ d wf cfg hns hattr c hc =>
+      h3 F d wf cfg hns (hashInj_holds wf hattr cfg) c hc⟩
 
 open XPathV.ApiSem in
 theorem compile_never_out_of_fuel (cc : CompileCfg) (ns : Option (List (String × String))) (text : List Char) :
